@@ -20,7 +20,10 @@ SPECIAL_STR = ["", " ", "two words", "three word value", "1", "42", "-7", "3.14"
                "a+b", "|", "&", "@", "<", ">", "a<b", "->", "<->", "A->B", "it's", "\r", "x\ry"]
 COMMENTS = ["note", "a comment", "TODO: x", "with :: ops -> |", "", "  spaced  ", "uni → code", "// nested"]
 HOLO = ['["example"∧REQ→§SELF]', '["x"∧REQ]', '[1∧TYPE[NUMBER]]', '["a"∧ENUM[a,b]→§T]',
-        '["d"∧REQ∧REGEX["^a$"]→§INDEXER]']
+        '["d"∧REQ∧REGEX["^a$"]→§INDEXER]',
+        # examples that need the string escapes, and token kinds beyond the basic ones, inside the pattern text
+        '["a\\tb"∧REQ]', '["q\\"r"∧OPT]', '["back\\\\slash"∧REQ]', '["two\\nlines"∧REQ→§SELF]', '["1.0.0"∧CONST[1.0.0]]', '[$V∧REQ]',
+        '["a"∧ENUM[x⊕y,z]]']
 ZONE_LINES = ["plain", "\tTabbed", "é nfd", "back\\slash \\n", 'q"uote', "A->B | C & D", "K::v", "===END===",
               "---", "``", "  indented", "", " ", "→⊕", "trailing  ", "x\ry", "``` not", "// c"]
 
